@@ -270,11 +270,12 @@ class ParallelScheduler(RunScheduler):
         self._worker_threads = [BenchmarkThread(self, i)
                                 for i in range(self._num_worker_threads)]
 
-        for thread in self._worker_threads:
-            thread.start()
-
         exceptions = []
         try:
+            # the first workers already run benchmarks while the others are started:
+            # an interrupt at that moment has to stop them, too
+            for thread in self._worker_threads:
+                thread.start()
             for thread in self._worker_threads:
                 thread.join()
                 if thread.exception is not None:
@@ -288,10 +289,11 @@ class ParallelScheduler(RunScheduler):
                 self._remaining_work = []
             self._executor.running_processes.kill_all_and_refuse_more()
             for thread in self._worker_threads:
-                # join() and is_alive() are not reliable for the thread whose join()
-                # was interrupted by the signal: CPython 3.12 marks it as stopped
-                # although it is still running. The thread's own event is.
-                thread.finished.wait()
+                if thread.ident is not None:  # it was started
+                    # join() and is_alive() are not reliable for the thread whose join()
+                    # was interrupted by the signal: CPython 3.12 marks it as stopped
+                    # although it is still running. The thread's own event is.
+                    thread.finished.wait()
             raise
 
         if exceptions:
